@@ -87,6 +87,8 @@ func runTLCP(s scen) (string, string) {
 	switch s.kind {
 	case "script":
 		return tlcpScript(s)
+	case "shist":
+		return tlcpScriptHist(s)
 	case "hist":
 		cache := tlcp.NewLRUSessionCache(8)
 		ccfg := tClient(s.cli, tlcp.NewLRUSessionCache(8))
@@ -96,7 +98,7 @@ func runTLCP(s scen) (string, string) {
 		ci2, ob2 := tlcpConn(ccfg, tServer(s.pol2, s.suite, roots2, now2, cache), s, roots2, now2)
 		t2 := ci2.tokens("2")
 		_, nowToks := judgeCerts(ci1.ders, roots2, now2, ci1.ecdhe)
-		return t1 + t2 + fmt.Sprintf(" now0=%s now1=%s", nowToks[0], nowToks[1]), ob1.tokens("1") + ob2.tokens("2")
+		return t1 + t2 + fmt.Sprintf(" 2.offer=%s now0=%s now1=%s", offerTok(ci2.cf), nowToks[0], nowToks[1]), ob1.tokens("1") + ob2.tokens("2")
 	default:
 		ci, ob := tlcpConn(tClient(s.cli, nil), tServer(s.pol, s.suite, st.Root.Pool, pki.Now, nil), s, st.Root.Pool, pki.Now)
 		return ci.tokens("1"), ob.tokens("1")
@@ -116,9 +118,38 @@ func signOther(key crypto.PrivateKey) []byte {
 	return append([]byte{byte(len(sig) >> 8), byte(len(sig))}, sig...)
 }
 
+// sessOffer is what a scripted client keeps of a connection in order to ask for its resumption:
+// the session id the server announced and the master secret the script derived ITSELF (from its
+// own pre-master secret) — whether or not the server went on to accept the handshake.
+type sessOffer struct {
+	id, master []byte
+}
+
 func tlcpScript(s scen) (string, string) {
 	st := pki.Std()
-	scfg := tServer(s.pol, s.suite, st.Root.Pool, pki.Now, nil)
+	ci, ob, _ := tlcpScriptConn(s, tServer(s.pol, s.suite, st.Root.Pool, pki.Now, nil), nil, st.Root.Pool, pki.Now)
+	return ci.tokens("1"), ob.tokens("1")
+}
+
+// tlcpScriptHist: two connections of the scripted client s.cli against two server Configs sharing
+// one SessionCache; the second connection offers the session of the first (completed or not).
+func tlcpScriptHist(s scen) (string, string) {
+	st := pki.Std()
+	cache := tlcp.NewLRUSessionCache(8)
+	ci1, ob1, offer := tlcpScriptConn(s, tServer(s.pol, s.suite, st.Root.Pool, pki.Now, cache), nil, st.Root.Pool, pki.Now)
+	t1 := ci1.tokens("1")
+	roots2, now2 := cfg2Of(s.cfg2)
+	ci2, ob2, _ := tlcpScriptConn(s, tServer(s.pol2, s.suite, roots2, now2, cache), offer, roots2, now2)
+	t2 := ci2.tokens("2")
+	_, nowToks := judgeCerts(ci1.ders, roots2, now2, ci1.ecdhe)
+	return t1 + t2 + fmt.Sprintf(" 2.offer=%s now0=%s now1=%s", offerTok(ci2.cf), nowToks[0], nowToks[1]), ob1.tokens("1") + ob2.tokens("2")
+}
+
+// tlcpScriptConn runs one scripted-client connection against a real server. With an offer the
+// ClientHello carries its session id; when the server resumes, the script finishes the abbreviated
+// handshake with the offered master secret, otherwise it plays its plan on the full handshake.
+func tlcpScriptConn(s scen, scfg *tlcp.Config, offer *sessOffer, roots *smx509.CertPool, now time.Time) (*connInfo, connObs, *sessOffer) {
+	st := pki.Std()
 	ce, se := pair.StreamPipe()
 	defer ce.Close()
 	defer se.Close()
@@ -143,6 +174,9 @@ func tlcpScript(s scen) (string, string) {
 		CipherSuites: []uint16{suiteID(s.suite)}, Time: pki.NowFn, RootCAs: st.Root.Pool,
 	}
 	sc := tlcp.NewVerifScript("client", ce, ccfg)
+	if offer != nil {
+		sc.SessionID, sc.ResumeMaster = offer.id, offer.master
+	}
 	cvBits, finOK := pl.cvBits, pl.finOK
 
 	// everything the script does runs under a watchdog: closing the pipe unblocks it
@@ -156,6 +190,22 @@ func tlcpScript(s scen) (string, string) {
 		for {
 			ev, err := sc.ReadMsg()
 			if err != nil || ev.Kind == "Alert" {
+				return
+			}
+			if ev.Kind == "ServerHello" && sc.Resuming {
+				// abbreviated handshake: ChangeCipherSpec, Finished of the server, then ours —
+				// computed with the master secret the script brought along
+				finOK = true
+				if sc.ExpectCCS() != nil {
+					return
+				}
+				if ev, err := sc.ReadMsg(); err != nil || ev.Kind != "Finished" {
+					return
+				}
+				if sc.SendCCS() != nil {
+					return
+				}
+				_ = sc.Send("Finished", nil)
 				return
 			}
 			if ev.Kind == "ServerHelloDone" {
@@ -224,12 +274,17 @@ func tlcpScript(s scen) (string, string) {
 		<-fin
 	}
 	ci := &connInfo{ecdhe: isECDHE(s.suite), cf: sniffStream(ce.SentBytes()), sf: sniffStream(se.SentBytes()),
-		cvBits: cvBits, finOK: finOK, tlcp: true, roots: st.Root.Pool, now: pki.Now}
+		cvBits: cvBits, finOK: finOK, tlcp: true, roots: roots, now: now}
 	cs := srv.ConnectionState()
 	ob := connObs{err: serr, resumed: cs.DidResume, peers: len(cs.PeerCertificates), chains: len(cs.VerifiedChains),
 		req: reqTok(ci.sf), alert: alertTok(ci.sf), panicked: panicked}
 	if !sc.PeerFinishedOK {
 		ob.cliErr = fmt.Errorf("no server Finished")
 	}
-	return ci.tokens("1"), ob.tokens("1")
+	// what the script can offer next time: the announced session id with ITS OWN master secret
+	var next *sessOffer
+	if id := sc.SessionIDInUse(); len(id) > 0 && sc.HasMaster() {
+		next = &sessOffer{id: append([]byte(nil), id...), master: sc.Master()}
+	}
+	return ci, ob, next
 }
